@@ -93,10 +93,12 @@ def call(fn, *a, numeric=True, **k):
 
 ROUTES_ANY = [
     "partial_late", "partial_early", "partial_late_name", "partial_early_name", "partial_late_after_expr",
+    "partial_early_after_expr", "component_late_after_expr", "component_early_after_expr",
     "diff_late_component_at", "diff_early_component_at", "diff_late_component_then_at", "diff_early_component_then_at",
     "diff_late_at_component", "diff_early_at_component", "located", "located_name",
 ]
-ROUTES_ONEVAR = ["derivative_late", "derivative_early", "derivative_late_number", "derivative_early_number"]
+ROUTES_ONEVAR = ["derivative_late", "derivative_early", "derivative_late_after_expr", "derivative_early_after_expr",
+                 "derivative_late_number", "derivative_early_number", "derivative_late_after_expr_number"]
 
 NUMERIC_PATH = {"partial_late", "partial_late_name", "diff_late_component_at", "diff_late_component_then_at",
                 "diff_late_at_component", "located", "located_name", "derivative_late", "derivative_late_number"}
@@ -147,16 +149,16 @@ def route_call(route, expr, var, point_dict):
         return call(lambda: sm.Derivative(expr).at(point_dict[var]))
     if route == "derivative_early_number":
         return call(lambda: sm.Derivative(expr, compute_early=True).at(point_dict[var]))
-    raise ValueError(route)
+    return Route(route, expr, var).query(point_dict)
 
 
 def routes_for(spec_vars, var, point_dict):
     """Route names applicable to an expression with variables spec_vars, differentiating by var."""
     rs = list(ROUTES_ANY)
     if len(spec_vars) == 1 and var in spec_vars:
-        rs += ROUTES_ONEVAR[:2]
+        rs += [r for r in ROUTES_ONEVAR if not r.endswith("_number")]
         if var in point_dict:
-            rs += ROUTES_ONEVAR[2:]
+            rs += [r for r in ROUTES_ONEVAR if r.endswith("_number")]
     return rs
 
 
@@ -176,8 +178,12 @@ class Route:
         r = route
         if r in ("partial_late", "partial_late_after_expr"):
             mk = lambda: sm.Partial(expr, V())
-        elif r == "partial_early":
+        elif r in ("partial_early", "partial_early_after_expr"):
             mk = lambda: sm.Partial(expr, V(), compute_early=True)
+        elif r == "component_late_after_expr":
+            mk = lambda: sm.Differential(expr).component(var)
+        elif r == "component_early_after_expr":
+            mk = lambda: sm.Differential(expr, compute_early=True).component(V())
         elif r == "partial_late_name":
             mk = lambda: sm.Partial(expr, var)
         elif r == "partial_early_name":
@@ -198,7 +204,7 @@ class Route:
             self.built = call(mk, numeric=False)
             if self.built.kind == "obj":
                 self.obj = self.built.value
-                if r == "partial_late_after_expr":
+                if "_after_expr" in r:
                     self.built2 = call(self.obj.as_expression, numeric=False)
                     if self.built2.kind != "obj":
                         self.built = self.built2
@@ -212,7 +218,7 @@ class Route:
         P = lambda: sm.Point(**point_dict)
         V = lambda: E.Variable(self.var)
         o, r, var = self.obj, self.route, self.var
-        if r.startswith("partial"):
+        if r.startswith("partial") or r.startswith("component_"):
             return call(lambda: o.at(P()))
         if r == "diff_late_component_at":
             return call(lambda: o.component_at(V(), P()))
@@ -230,14 +236,18 @@ class Route:
             return call(lambda: sm.LocatedDifferential(self.expr, P()).component(V()))
         if r == "located_name":
             return call(lambda: sm.LocatedDifferential(self.expr, P()).component(var))
-        if r in ("derivative_late", "derivative_early"):
+        if r in ("derivative_late", "derivative_early", "derivative_late_after_expr", "derivative_early_after_expr"):
             return call(lambda: o.at(P()))
-        if r in ("derivative_late_number", "derivative_early_number"):
+        if r in ("derivative_late_number", "derivative_early_number", "derivative_late_after_expr_number"):
             return call(lambda: o.at(point_dict[var]))
         raise ValueError(r)
 
 
-SYMBOLIC_PATH = {"partial_early", "partial_early_name", "partial_late_after_expr", "diff_early_component_at",
-                 "diff_early_component_then_at", "diff_early_at_component", "derivative_early", "derivative_early_number"}
-FORWARD_SYMBOLIC = {"partial_early", "partial_early_name", "partial_late_after_expr", "derivative_early", "derivative_early_number"}
-REVERSE_SYMBOLIC = {"diff_early_component_at", "diff_early_component_then_at", "diff_early_at_component"}
+SYMBOLIC_PATH = {"partial_early", "partial_early_name", "partial_late_after_expr", "partial_early_after_expr",
+                 "component_late_after_expr", "component_early_after_expr", "diff_early_component_at",
+                 "diff_early_component_then_at", "diff_early_at_component", "derivative_early", "derivative_early_number",
+                 "derivative_late_after_expr", "derivative_early_after_expr", "derivative_late_after_expr_number"}
+FORWARD_SYMBOLIC = {"partial_early", "partial_early_name", "partial_late_after_expr", "partial_early_after_expr",
+                    "component_late_after_expr", "derivative_early", "derivative_early_number",
+                    "derivative_late_after_expr", "derivative_early_after_expr", "derivative_late_after_expr_number"}
+REVERSE_SYMBOLIC = {"diff_early_component_at", "diff_early_component_then_at", "diff_early_at_component", "component_early_after_expr"}
